@@ -750,6 +750,18 @@ class Sim:
                 items.append([pick, rng.choice(sm.VALID["posnum"])])
         return items
 
+    @staticmethod
+    def _same_leaf_twice(rng, items):
+        """the same leaf given twice in ONE call, in two notations (first item: dictionary resp. first keyword,
+        second item: the other notation): the later one wins"""
+        leaf, val = items[0]
+        if sm.is_alias(leaf):
+            return items
+        others = [v for v in sm.VALID[sm.kind_of(leaf)] if v != val]
+        if not others:
+            return items
+        return [[leaf, val], [leaf, rng.choice(others)]] + [it for it in items[1:] if it[0] != leaf]
+
     def _invalid(self, rng, items, leaves):
         out = [{"kind": "bad_leaf", "items": [[rng.choice(["bogus", "path_bogus", "colour", "path_line_widht", "copy",
                                                            "update", "path_update", "as_dict", "path_copy"]), 1]]}]
@@ -797,6 +809,8 @@ class Sim:
             if notation == "str_shortcut":
                 tl = rng.choice(["description_text", "legend_text"])
                 items = [it for it in items if it[0] != tl] + [[tl, rng.choice(sm.VALID["text"])]]
+            if notation in ("mixed_update", "magic_then_dict") and rng.random() < 0.35:
+                items = self._same_leaf_twice(rng, items)
             op = {"op": "obj_set", "o": o, "notation": notation, "items": items}
             if cfg["invalid"]:
                 op["invalid"] = self._invalid(rng, items, self._leaves(M.S[o]))
@@ -806,6 +820,8 @@ class Sim:
             leaves = self._leaves(fresh) + [k for k in ("magnetization_size",) if "magnetization_arrow_size" in fresh]
             items = self._items(rng, cfg, leaves)
             op = {"op": "new_obj", "cls": cls, "notation": rng.choice(CTOR_NOTATIONS), "items": items}
+            if op["notation"] == "ctor_mixed" and rng.random() < 0.35:
+                op["items"] = items = self._same_leaf_twice(rng, items)
             if cfg["invalid"]:
                 op["invalid"] = [v for v in self._invalid(rng, items, self._leaves(fresh)) if v["kind"] != "partial"]
         elif kind == "def_set":
